@@ -394,3 +394,210 @@ func windowBound(o *out, c *hx.Ctx, w int, mode string) {
 	ok, d := checkOrder(sub.received())
 	sc.direct("progress", all && ok, fmt.Sprintf("after acknowledging: %d of %d received, %s", sub.pubCount(), total, d))
 }
+
+// ------------------------------------------------------------------- fourth round
+
+// killTimeoutDuringPubrel (c07): the publisher's connection is cut while its processor sits inside Backend.Publish for a PUBREL, for
+// longer than the kill timeout.  Whatever the broker does with the resuming connection meanwhile (the current tree refuses it: no
+// CONNACK), and with the one after the held call has returned, the message is handed on exactly once.
+func killTimeoutDuringPubrel(o *out, c *hx.Ctx) {
+	e := c07begin(o, c, "c07 PUBREL's Publish held past the kill timeout, publisher cut, resumes and retransmits")
+	defer e.sc.end()
+	e.b.KillTimeout = 300 * time.Millisecond
+	p1, _ := e.connect(false)
+	m := msg7(2, 0)
+	p1.send(&packet.Publish{ID: 5, Message: m})
+	rec := waitAck(p1, "pubrec", 5, 1)
+	rel := e.sc.gate(e.b.holdPublishOf("pub7", 1))
+	p1.send(&packet.Pubrel{ID: 5})
+	at := waitFor(long, func() bool { return e.b.atPublishGate("pub7") >= 1 })
+	p1.close()
+	p1.isClosed(long)
+	// the second connection arrives while the first one's processor is still inside Publish: its Setup waits out the kill timeout
+	p2, ack2 := e.connect(false)
+	second := "refused"
+	if ack2 != nil {
+		second = "acknowledged"
+		p2.send(&packet.Pubrel{ID: 5})
+		waitAck(p2, "pubcomp", 5, 1)
+	}
+	rel() // the held call goes on
+	waitFor(long, func() bool { c := e.b.nth("pub7", 1); return c != nil && closedNow(c) })
+	p3, ack3 := e.connect(false)
+	p3.send(&packet.Pubrel{ID: 5})
+	answered := waitAck(p3, "pubcomp", 5, 1)
+	got := waitFor(long, func() bool { return deliveredNum(e.sub, 2, 0) >= 1 })
+	time.Sleep(absence)
+	e.sc.direct("pubrel_answered", rec && at && ack3 != nil && answered, fmt.Sprintf("PUBREL's Publish held (reached=%v); second connection %s; third connection acknowledged=%v, its PUBREL answered=%v", at, second, ack3 != nil, answered))
+	d, a := deliveredNum(e.sub, 2, 0), accepted(e.b, &m)
+	e.sc.direct("qos2_exactly_once", got && d == 1 && a == 1, fmt.Sprintf("second connection %s while the first one's Publish was still in progress: the QoS 2 message reached the subscriber %d time(s), the backend accepted %d Publish call(s) for it (1 and 1 expected)", second, d, a))
+	e.probe(p3)
+}
+
+// multiFilterSubscribe (c08): ONE SUBSCRIBE with several filters of different QoS from a persistent subscriber: each filter keeps
+// its own granted QoS — deliveries on the QoS>0 filters carry that QoS and a packet id, are stored, and come back (dup) after a cut
+func multiFilterSubscribe(o *out, c *hx.Ctx, grants []int) {
+	sc := o.begin(c, fmt.Sprintf("c08 one SUBSCRIBE with filters granted QoS %v: deliveries keep each filter's QoS and are retransmitted", grants), 5, 100)
+	defer sc.end()
+	b := sc.s.backend
+	sub := sc.dial("sub", false)
+	sub.connect("mf", false, nil)
+	var subs []packet.Subscription
+	for i, q := range grants {
+		subs = append(subs, packet.Subscription{Topic: fmt.Sprintf("mf/%d", i), QOS: packet.QOS(q)})
+	}
+	sub.send(&packet.Subscribe{ID: 1, Subscriptions: subs})
+	var codes []packet.QOS
+	if g := sub.await(func(g packet.Generic) bool { _, ok := g.(*packet.Suback); return ok }, long); g != nil {
+		codes = g.(*packet.Suback).ReturnCodes
+	}
+	feeder := sc.dial("feed", true)
+	feeder.connect("feed", true, nil)
+	want := 0
+	for i, q := range grants {
+		// published at QoS 2: the delivery is capped by the filter's grant
+		feeder.send(&packet.Publish{ID: packet.ID(1 + i), Message: packet.Message{Topic: fmt.Sprintf("mf/%d", i), Payload: payload(0, 2, i), QOS: 2}})
+		waitFor(long, func() bool { return ackCount(feeder) >= i+1 })
+		if q > 0 {
+			want++
+		}
+	}
+	waitFor(long, func() bool { return sub.pubCount() >= len(grants) })
+	bad := []string{}
+	byNum := map[int]*packet.Publish{}
+	for _, p := range sub.received() {
+		if _, _, n, ok := parsePayload(p.Message.Payload); ok {
+			byNum[n] = p
+		}
+	}
+	for i, q := range grants {
+		p := byNum[i]
+		switch {
+		case p == nil:
+			bad = append(bad, fmt.Sprintf("filter %d (granted %d): nothing delivered", i, q))
+		case int(p.Message.QOS) != q || (q > 0) != (p.ID != 0):
+			bad = append(bad, fmt.Sprintf("filter %d (granted %d): delivered with QoS %d, packet id %d", i, q, p.Message.QOS, p.ID))
+		}
+	}
+	sc.direct("qos_kept", len(bad) == 0 && len(codes) == len(grants), fmt.Sprintf("SUBACK %v; %s", codes, joinLines(bad)))
+	// nothing was acknowledged: after a cut every QoS>0 delivery comes again, flagged dup, with its QoS
+	sub.close()
+	sub.isClosed(long)
+	waitFor(long, func() bool { c := b.nth("mf", 1); return c != nil && closedNow(c) })
+	back := sc.dial("sub2", true)
+	ack := back.connect("mf", false, nil)
+	waitFor(long, func() bool { return back.pubCount() >= want })
+	time.Sleep(absence)
+	again := map[int]int{}
+	for _, p := range back.received() {
+		if _, _, n, ok := parsePayload(p.Message.Payload); ok && p.Dup && int(p.Message.QOS) == grants[n] {
+			again[n]++
+		}
+	}
+	missing := []int{}
+	for i, q := range grants {
+		if q > 0 && again[i] != 1 {
+			missing = append(missing, i)
+		}
+	}
+	sc.direct("nothing_lost", ack != nil && ack.SessionPresent && len(missing) == 0, fmt.Sprintf("after a cut without acknowledgements: deliveries on the QoS>0 filters retransmitted (dup, same QoS) %v; not retransmitted exactly once: filters %v", again, missing))
+}
+
+// willBehindBlockedWrite (c12): a client with a will and keep-alive 1 s subscribes to a topic and then stops READING, while another
+// client publishes 64 KiB messages to that topic until the broker's write towards the silent client blocks (its queue fills up and
+// the publisher is parked inside the backend).  The keep-alive expiry must still end the connection and publish the will.
+func willBehindBlockedWrite(o *out, c *hx.Ctx) {
+	sc := o.begin(c, "c12 keep-alive expiry of a client that stopped reading, with the broker's write towards it blocked", 3, 20)
+	defer sc.end()
+	b := sc.s.backend
+	obs := sc.dial("obs", true)
+	pub := sc.dial("kbpub", true)
+	if obs.connect("kb-obs", true, nil) == nil || !obs.subscribe(1, "will/#", 1) || pub.connect("kbpub", true, nil) == nil {
+		sc.direct("setup", false, "could not connect")
+		return
+	}
+	conn := rawConn(sc.s.port)
+	if conn == nil {
+		sc.direct("setup", false, "could not dial")
+		return
+	}
+	sc.gate(func() { conn.Close() })
+	cp := packet.NewConnect()
+	cp.ClientID = "kb"
+	cp.KeepAlive = 1
+	cp.Will = &packet.Message{Topic: "will/kb", Payload: []byte("stuck"), QOS: 1}
+	buf := make([]byte, 16)
+	conn.SetDeadline(time.Now().Add(long))
+	conn.Write(enc(cp))
+	_, err1 := conn.Read(buf[:4]) // CONNACK
+	t0 := time.Now()
+	conn.Write(enc(&packet.Subscribe{ID: 1, Subscriptions: []packet.Subscription{{Topic: "kb/#", QOS: 0}}}))
+	_, err2 := conn.Read(buf[:5]) // SUBACK — the last thing this peer ever reads
+	conn.SetDeadline(time.Time{})
+	big := make([]byte, 64*1024)
+	stop := make(chan struct{})
+	done := make(chan struct{})
+	go func() {
+		defer close(done)
+		for i := 0; i < 2000; i++ {
+			select {
+			case <-stop:
+				return
+			default:
+			}
+			if pub.send(&packet.Publish{Message: packet.Message{Topic: "kb/x", Payload: big}}) != nil {
+				return
+			}
+		}
+	}()
+	// the queue of the silent client is full and a publish waits for room: the broker's dequeuer for it is stuck in a write
+	parkedSeen := false
+	blocked := waitFor(long, func() bool {
+		if b.parked("kbpub") >= 1 {
+			parkedSeen = true
+		}
+		return parkedSeen || obs.countTopic("will/kb") >= 1
+	})
+	got := waitFor(long, func() bool { return obs.countTopic("will/kb") >= 1 })
+	after := time.Since(t0)
+	close(stop)
+	gone := waitFor(long, func() bool { c := b.nth("kb", 1); return c != nil && closedNow(c) })
+	sc.direct("keepalive_will", err1 == nil && err2 == nil && blocked && got && gone,
+		fmt.Sprintf("client with keep-alive 1 s that stopped reading (its queue full and the publisher parked behind it before the expiry=%v): will received=%v %.2fs after its last packet (within %v expected), its connection released=%v", parkedSeen, got, after.Seconds(), long, gone))
+	_ = parkedSeen
+	conn.Close()
+	<-done
+	time.Sleep(absence)
+	sc.direct("will_once", obs.countTopic("will/kb") == 1, fmt.Sprintf("will seen %d time(s)", obs.countTopic("will/kb")))
+}
+
+// retainedWillDuringSubscribe (c12): an observer's SUBSCRIBE is being acknowledged by the backend at the very moment a client with a
+// RETAINED will dies: the observer gets that will exactly once — live or as retained replay, not both
+func retainedWillDuringSubscribe(o *out, c *hx.Ctx) {
+	for _, wq := range []int{0, 1} {
+		sc := o.begin(c, fmt.Sprintf("c12 client with a retained will (QoS %d) dies while an observer's SUBSCRIBE is being acknowledged", wq), 3, 100)
+		b := sc.s.backend
+		wc := sc.dial("wc", true)
+		wc.connect("rs-wc", true, &packet.Message{Topic: "will/rs", Payload: []byte("gone"), QOS: packet.QOS(wq), Retain: true})
+		obs := sc.dial("obs", true)
+		obs.connect("rs-obs", true, nil)
+		hooked := false
+		b.mu.Lock()
+		b.subAckHook["rs-obs"] = func() {
+			hooked = true
+			wc.close()
+			// on a backend that holds its lock across the acknowledgement the dying client's cleanup cannot get anywhere before this
+			// returns: the wait runs out; otherwise its will is published right now
+			waitFor(2*absence, func() bool { c := b.nth("rs-wc", 1); return c != nil && closedNow(c) })
+		}
+		b.mu.Unlock()
+		okSub := obs.subscribe(1, "will/#", 1)
+		waitFor(long, func() bool { c := b.nth("rs-wc", 1); return c != nil && closedNow(c) })
+		waitFor(long, func() bool { return obs.countTopic("will/rs") >= 1 })
+		okPing := obs.ping()
+		time.Sleep(absence)
+		n := obs.countTopic("will/rs")
+		sc.direct("will_delivered", okSub && hooked && okPing && n == 1, fmt.Sprintf("subscription acknowledged=%v, will owner closed inside the acknowledgement=%v: the observer received the retained will %d time(s) (exactly once expected)", okSub, hooked, n))
+		sc.end()
+	}
+}
